@@ -198,7 +198,7 @@ func (fileEngine) Gen(rng *rand.Rand, tier string, i int) any {
 			} else {
 				// written in place, or installed by renaming a new file over the name (what editors,
 				// sed -i and deployment tools do), with or without a backup link to the old file
-				c.Steps = append(c.Steps, []string{"good", "good", "good:rename", "good:rename-keep", "good:rename-old-mtime", "good:rename-then-edit", "good:rename-then-edit"}[rng.Intn(7)])
+				c.Steps = append(c.Steps, []string{"good", "good", "good:rename", "good:rename-keep", "good:rename-old-mtime", "good:rename-then-edit", "good:rename-then-edit", "good:recreate"}[rng.Intn(8)])
 			}
 		}
 		c.Steps = append(c.Steps, []string{"good", "good:rename", "good:rename-keep"}[rng.Intn(3)], "good")
@@ -522,8 +522,11 @@ func runFileRefresh(ctx *fw.Ctx, c *fileCase) {
 		kind string // "initial" | "progress" | "rearm" | "hold"
 		mid  int    // a version that may be seen in between (0 none)
 		ver  int    // version that must be reached (progress) / held (hold)
-		prev int
-		mac  int
+		// emptyOK: the step creates the file anew (create, then write): for a moment the file that has the
+		// name IS empty - a well-formed file that lists nobody - and being served nothing then is correct
+		emptyOK bool
+		prev    int
+		mac     int
 	}
 	var exps []exp
 	xid := uint32(0)
@@ -540,6 +543,10 @@ func runFileRefresh(ctx *fw.Ctx, c *fileCase) {
 		if strings.HasPrefix(st, "good") {
 			r := req(0, xid)
 			r.Write = &FileWrite{Name: "leases.txt", Content: versionFile(v6, c.Macs, next, ""), Rename: strings.HasPrefix(st, "good:rename"), KeepOld: st == "good:rename-keep"}
+			if st == "good:recreate" {
+				r.Write.Create, r.Write.RemoveFirst = true, true
+				r.Write.GapUs = []int{0, 150, 2000, 20000}[int(uint64(c.Seed>>9)%4)] * (1 + len(j.Reqs)%2)
+			}
 			if st == "good:rename-old-mtime" {
 				r.Write.MtimeAgoS = 600 // the version being installed is older than the one in force (a roll-back, rsync -t)
 			}
@@ -553,7 +560,7 @@ func runFileRefresh(ctx *fw.Ctx, c *fileCase) {
 				r.Poll = &PollSpec{Until: hex.EncodeToString(versionAddr(v6, next, 0)), MaxPolls: 200, IntervalMs: 50}
 			}
 			r.Poll = &PollSpec{Until: hex.EncodeToString(versionAddr(v6, next, 0)), MaxPolls: 200, IntervalMs: 50}
-			add(r, exp{kind: "progress", ver: next, prev: cur, mac: 0, mid: mid})
+			add(r, exp{kind: "progress", ver: next, prev: cur, mac: 0, mid: mid, emptyOK: st == "good:recreate"})
 			// re-arm once: rewrite the same content and give it the other half of the bound
 			r2 := req(0, xid)
 			r2.Write = &FileWrite{Name: "leases.txt", Content: versionFile(v6, c.Macs, next, "")}
@@ -627,7 +634,8 @@ func runFileRefresh(ctx *fw.Ctx, c *fileCase) {
 		for i := 0; i < c.Macs; i++ {
 			fmt.Fprintf(&sb, "%s %s\n", net.HardwareAddr(refreshMac(i)), versionAddr(v6, next, i))
 		}
-		for i := 0; i < 60000; i++ {
+		// (the second one is several times larger: its load takes long enough for many further events to arrive)
+		for i := 0; i < 60000+rep*190000; i++ {
 			if v6 {
 				fmt.Fprintf(&sb, "0a:%02x:%02x:%02x:00:01 2001:db8:f0::%x\n", byte(i>>16), byte(i>>8), byte(i), i+1)
 			} else {
@@ -641,7 +649,20 @@ func runFileRefresh(ctx *fw.Ctx, c *fileCase) {
 		r.Poll = &PollSpec{Until: hex.EncodeToString(versionAddr(v6, next+1, 0)), MaxPolls: 150, IntervalMs: 20, Hold: true}
 		bigSmall = len(j.Reqs)
 		add(r, exp{kind: "big-small", ver: next + 1, prev: next, mac: 0})
+		cur = next + 1
 		next += 2
+	}
+	// last of all: the file is replaced at a moment at which the process cannot open another descriptor
+	// (whatever the refresh machinery needs then, it does not get). The update may be lost - a fault - but
+	// the server goes on serving one whole mapping, the old or the new
+	if c.Seed%3 == 0 && next <= 26 {
+		r := req(0, xid)
+		r.Write = &FileWrite{Name: "leases.txt", Content: versionFile(v6, c.Macs, next, ""), Rename: true, NoFDs: true}
+		r.Poll = &PollSpec{Until: hex.EncodeToString(versionAddr(v6, next, 0)), MaxPolls: 10, IntervalMs: 10}
+		add(r, exp{kind: "no-descriptors", ver: next, prev: cur, mac: 0})
+		for i := 1; i < c.Macs; i++ {
+			add(req(i, xid), exp{kind: "no-descriptors", ver: next, prev: cur, mac: i})
+		}
 	}
 	out := RunChain(j, ctx.Scratch, 5*time.Minute)
 	desc := fmt.Sprintf("autorefresh v6=%v macs=%d path=%s steps=%v", v6, c.Macs, confPath, c.Steps)
@@ -652,8 +673,11 @@ func runFileRefresh(ctx *fw.Ctx, c *fileCase) {
 	}
 	if out.Died {
 		ctx.Viol("C10", "crash", "%s: server died: %s", desc, panicLine(out.Stderr))
+		// (an accepted configuration that takes the server down later is C19's business as well)
+		ctx.Viol("C19", "crash-after-accepted-setup:file:"+childFrame(out.Stderr), "file %s autorefresh was accepted at start-up; during the refresh sequence %s the server process died: %s\n%s", confPath, desc, panicLine(out.Stderr), firstLines(out.Stderr, 14))
 		return
 	}
+	ctx.Eval("C19", 1)
 	ctx.Nontrivial("C10", "refresh/"+desc)
 	ctx.Count("file.refresh.sequences", 1)
 	rearmed := false
@@ -711,6 +735,17 @@ func runFileRefresh(ctx *fw.Ctx, c *fileCase) {
 			}
 			continue
 		}
+		if e.emptyOK {
+			var s2 []int
+			for _, v := range seen {
+				if v == -1 {
+					ctx.Count("file.refresh.served_nothing_while_the_file_was_empty", 1)
+					continue
+				}
+				s2 = append(s2, v)
+			}
+			seen = s2
+		}
 		for k, v := range seen {
 			if v != e.prev && v != e.ver && !(e.mid != 0 && v == e.mid) {
 				ctx.Viol("C10", "neither-old-nor-new", "%s: while version %d was being installed over %d, MAC #%d was served version %d (sequence %v)", desc, e.ver, e.prev, e.mac, v, seen)
@@ -740,6 +775,8 @@ func runFileRefresh(ctx *fw.Ctx, c *fileCase) {
 				ctx.Viol("C10", "update-not-served", "%s: well-formed version %d was installed; after %d polls over >= 10 s the server still served %v; it %s", desc, e.ver, 200, seen, how)
 				return
 			}
+		case "no-descriptors":
+			ctx.Count("file.refresh.replaced_without_descriptors", 1)
 		case "progress-other":
 			if !r.Matched {
 				ctx.Viol("C10", "update-partial", "%s: version %d is served for MAC #0 but MAC #%d still gets %v: the mapping was not replaced as a whole", desc, e.ver, e.mac, seen)
